@@ -32,11 +32,13 @@ def _nm(v):
     return v.name if isinstance(v, EnumVal) else None
 
 
-def check_container_run(chk, ix, rules, tier="quick", mutate=None):
+def check_container_run(chk, ix, rules, tier="quick", mutate=None, which=("Feature", "Rule", "outline")):
     for r in rules:
         chk.rule(r, WHAT[r])
     n = 0
     for cls in ("behave.model:Feature", "behave.model:Rule"):
+        if cls.split(":")[1] not in which:
+            continue
         ci = ix.cls(cls)
         fi = ci.lookup("run")
         fname = "%s:%s.run[as %s]" % (fi.module.name, fi.cls.name, ci.name)
@@ -48,7 +50,7 @@ def check_container_run(chk, ix, rules, tier="quick", mutate=None):
             n += 1
             _one(chk, fi, fname, ex, rules)
     rules_o = rules & {"V3", "ST", "R4"}
-    if rules_o:
+    if rules_o and "outline" in which:
         fi = ix.func("behave.model:ScenarioOutline.run")
         it, exits = explore_outline_run(ix, thorough=(tier == "thorough"), mutate=mutate)
         chk.absorb(it)
